@@ -551,6 +551,9 @@ class J1939_22:
                 return
 
             num_segments_all = self._snd_buffer[buffer_hash]['num_segments']
+            if (segment_num < 1) or (segment_num > num_segments_all):
+                # next segment number outside of the message: there is nothing to send for this CTS
+                return
             self._snd_buffer[buffer_hash]['next_packet_to_send'] = segment_num - 1
             segments_to_be_sent = num_segments_all - self._snd_buffer[buffer_hash]['next_packet_to_send']
             if num_segments > num_segments_all:
